@@ -59,6 +59,10 @@ impl DirectoryPackCreator {
         info!("======= Finalize creation =======");
 
         info!("----- Finalize value_stores -----");
+        assert!(
+            self.value_stores.len() <= u8::MAX as usize,
+            "A directory pack cannot hold more than 255 value stores"
+        );
         for (idx, value_store) in &mut self.value_stores.iter().enumerate() {
             value_store.finalize(ValueStoreIdx::from(idx as u8));
         }
@@ -161,6 +165,10 @@ impl FinalizedDirectoryPackCreator {
         file.ser_write(&pack_header)?;
 
         info!("----- Write directory pack header -----");
+        assert!(
+            value_stores_offsets.len() <= u8::MAX as usize,
+            "A directory pack cannot hold more than 255 value stores"
+        );
         let header = DirectoryPackHeader::new(
             self.free_data,
             (
